@@ -6,10 +6,11 @@ import PoxModel.Proofs.TcpOpts
 * `ser` — the wire form of a header stack with every length field and every RFC 1071 checksum recomputed
   (`ipv4Bytes`, `udpBytes`, `tcpBytes`, `icmpBytes` are the closed forms of C14, stated with `rfc1071`, not with the
   code's little-endian summation).
-* `rewrite1` / `rewrite` — what a header-rewrite action does to the *fields* (OpenFlow 1.0 §3.3 / Table 5): set-VLAN
-  actions replace the 12-bit id / 3-bit priority of the outermost tag, pushing a zero tag in front of the payload of an
-  untagged frame; strip removes the outermost tag; dl/nw/tp setters replace one field of the Ethernet header, of the
-  IPv4 header behind at most one tag, of the UDP/TCP header in it — and do nothing when there is no such header.
+* `rewrite1` / `rewrite` — what a header-rewrite action does to the *fields*, transcribed from OpenFlow 1.0 §3.3 with its
+  own header traversal (`atL3`, `ifIpv4`, `ifL4`; no model helper is used): set-VLAN actions replace the 12-bit id / 3-bit
+  priority of the outermost tag, pushing a zero tag in front of the payload of an untagged frame; strip removes the outermost
+  tag; dl/nw/tp setters replace one field of the Ethernet header, of the IPv4 header behind at most one tag (ToS: the six
+  DSCP bits), of the UDP/TCP header in it — and do nothing when there is no such header.
 * `expand` — the physical ports an output reaches: `port` itself unless it is the ingress port, the ingress port for
   IN_PORT, every port but the ingress port for ALL, additionally without NO_FLOOD ports for FLOOD; always without ports
   that are administratively down, link-down or forwarding-disabled.
@@ -57,6 +58,39 @@ def popTag (f : Frame) : Frame :=
   | .vlan v n => { eth := { f.eth with type := v.ethType }, pay := n }
   | _ => f
 
+/-! The setters below are written from the OpenFlow 1.0.0 text (§3.3 "Modify-Field" table, `openflow.h` `ofp_action_*`),
+with their own traversal of the header stack — not with the model's helpers:
+* the network header is what follows the Ethernet header or the single 802.1Q tag OpenFlow 1.0 knows (`dl_vlan`); a second
+  tag is payload;
+* "Modify IPv4 source/destination address … only applicable to IPv4 packets"; "Modify IPv4 ToS bits — 6 bits — replace the
+  existing IP ToS field", `nw_tos: IP ToS (DSCP field, 6 bits)`: the upper six bits of the action's octet replace the DSCP
+  field, the two ECN bits of the packet stay;
+* "Modify transport source/destination port … applicable to TCP and UDP packets": the header directly inside that IPv4
+  header when it is UDP or TCP (an ICMP message quoting a UDP header is not a UDP packet);
+* anything else is left as it is.  Checksums and lengths are not part of the rewrite: they are recomputed by `ser`. -/
+
+/-- apply `g` to the network-layer part: the Ethernet payload, or the payload of the one 802.1Q tag in front of it -/
+def atL3 (g : Pkt → Pkt) : Pkt → Pkt
+  | .vlan v n => .vlan v (g n)
+  | n => g n
+
+/-- only an IPv4 header is touched -/
+def ifIpv4 (g : IPv4 → Pkt → Pkt) : Pkt → Pkt
+  | .ipv4 h n => g h n
+  | p => p
+
+/-- only a UDP or TCP header is touched -/
+def ifL4 (gu : Udp → Udp) (gt : Tcp → Tcp) : Pkt → Pkt
+  | .udp u n => .udp (gu u) n
+  | .tcp t n => .tcp (gt t) n
+  | p => p
+
+def setIp (g : IPv4 → IPv4) (f : Frame) : Frame :=
+  { f with pay := atL3 (ifIpv4 fun h n => .ipv4 (g h) n) f.pay }
+
+def setL4 (gu : Udp → Udp) (gt : Tcp → Tcp) (f : Frame) : Frame :=
+  { f with pay := atL3 (ifIpv4 fun h n => .ipv4 h (ifL4 gu gt n)) f.pay }
+
 def rewrite1 (a : Action) (f : Frame) : Frame :=
   match a with
   | .setVlanVid vid => setTag (fun v => { v with id := vid % 4096 }) f
@@ -64,13 +98,11 @@ def rewrite1 (a : Action) (f : Frame) : Frame :=
   | .stripVlan => popTag f
   | .setDlSrc a => { f with eth := { f.eth with src := a } }
   | .setDlDst a => { f with eth := { f.eth with dst := a } }
-  | .setNwSrc a => { f with pay := updIp (fun h n => .ipv4 { h with src := a } n) f.pay }
-  | .setNwDst a => { f with pay := updIp (fun h n => .ipv4 { h with dst := a } n) f.pay }
-  | .setNwTos t => { f with pay := updIp (fun h n => .ipv4 { h with tos := t } n) f.pay }
-  | .setTpSrc p => { f with pay := updIp (fun h n => .ipv4 h (updTp (fun u => { u with sport := p })
-                                                                  (fun t => { t with sport := p }) n)) f.pay }
-  | .setTpDst p => { f with pay := updIp (fun h n => .ipv4 h (updTp (fun u => { u with dport := p })
-                                                                  (fun t => { t with dport := p }) n)) f.pay }
+  | .setNwSrc a => setIp (fun h => { h with src := a }) f
+  | .setNwDst a => setIp (fun h => { h with dst := a }) f
+  | .setNwTos t => setIp (fun h => { h with tos := 4 * (t / 4 % 64) + h.tos % 4 }) f
+  | .setTpSrc p => setL4 (fun u => { u with sport := p }) (fun t => { t with sport := p }) f
+  | .setTpDst p => setL4 (fun u => { u with dport := p }) (fun t => { t with dport := p }) f
   | _ => f
 
 /-- the packet after one action: a header rewrite, or — for an output to TABLE — whatever the matching flow entry's
